@@ -10,11 +10,15 @@ MANIFEST = {
                  "+ property search on the real API (invariant, encode/decode round trip, fragment decode)",
     "level_text": "Theorems (coq/c19/C19Theorems.v), for every op sequence of fewer than 2^32-1 calls and every SPS parser: "
                   "moov children are mvhd, mvex and the contiguous traks in Traks order, track ids are exactly 1..n, one trex per "
-                  "track with the same id in the same order, next-track id above every id (C19_inv, also after errors and a panic); "
-                  "next-track id = n+1, handler type / media header / language / timescale of every track equal to the "
-                  "specification table and no panic for in-scope arguments; the sample entry added by each Set...Descriptor call "
-                  "carries the supplied parameter sets, configuration and the parser's dimensions. Encode/decode equality, "
-                  "IsFragmented and fragment decoding are explored on the real code (search), not proved.",
+                  "track with the same id in the same order, next-track id above every id (C19_inv, also after errors and a panic), "
+                  "ids unique and a trex found for every track (C19_trex_lookup), every sample entry has data reference index 1 "
+                  "(C19_dref); for in-scope arguments no panic, next-track id = n+1, handler type / media header / language / "
+                  "timescale / volume of every track equal to the specification table (C19_tracks); each successful "
+                  "Set...Descriptor call adds exactly one sample entry carrying the supplied parameter sets / configuration and the "
+                  "parser's dimensions (C19_descriptor_*; AAC AudioSpecificConfig read back over a complete finite domain); elng "
+                  "round trip with the exact two-byte boundary. C19_roundtrip is PARTIAL: encode/decode equality of the whole "
+                  "tree, IsFragmented and fragment decoding are explored on the real code (search), not proved. Refutations: "
+                  "mp4a sample rate for 96000 Hz (known finding), one-byte elng tag, AddEmptyTrack on decoded inits (outside the quantifier).",
     "level_note": "Trusted: Coq kernel, extraction (ExtrOcamlBasic), OCaml/Go glue; the SPS parsers are arguments of the model "
                   "(their answers are taken from the real parsers in the correspondence); box encoding/decoding is not modelled here "
                   "(C01/C02); the correspondence is only as good as its generated histories.",
@@ -130,7 +134,26 @@ def run(ctx):
 
 
 def replay(ctx, path):
-    """Re-runs a failing history: the witness is the ops string of a harness case."""
+    """Re-runs a failing history on the current /repo tree: the witness is the ops string of a harness case."""
     r = json.load(open(path))
-    print(json.dumps(r, indent=1))
-    return 0
+    print(json.dumps(r, indent=1)[:3000])
+    wit = r.get("witness")
+    if r.get("kind") == "correspondence-mismatch":
+        exe, model = build(ctx)
+        case = r.get("first_case", "")
+        res = common.run_model(model, case + "\n")
+        print("model driver on the recorded case:", res)
+        f = case.split("\t")
+        if len(f) >= 3 and f[0] == "S":
+            rc, so, e = sh2([exe, "replay", f[2]], timeout=600)
+            print(so)
+            now = [l for l in so.splitlines() if l.startswith("STATE\t")]
+            same = bool(now) and now[0].split("\t", 1)[1] == f[3]
+            print("implementation state unchanged since the recording:", same)
+        return 1 if any(not l.startswith("OK ") for l in res) else 0
+    if not wit:
+        return 0
+    exe, _ = build(ctx)
+    rc, so, e = sh2([exe, "replay", wit], timeout=600)
+    print(so + e)
+    return 1 if rc != 0 else 0
